@@ -151,6 +151,11 @@ def gen_runner(ck):
         for mw in ((1 + n % 4,) if ck.tier == "quick" and n % 3 else (1, 2, 3, 4)):
             add("executor", "executor", labels, mw=mw)
     add("executor", "executor", list(range(6)), mw=None)
+    # the pool runner with an explicit max_workers below / at / above its own process count and many more jobs than that
+    for cpu, n, mw in ((16, 36, 1), (16, 24, 11), (8, 13, 2), (5, 9, 3), (10, 17, 8), (4, 7, 64)) if ck.tier == "quick" else \
+            tuple((cpu, n, mw) for cpu in (4, 8, 16) for n in (7, 13, 24, 36) for mw in (1, 2, 3, 11, 64)):
+        labels = list(range(n)); rng.shuffle(labels)
+        add("pool_max_workers", "pool", labels, cpu=cpu, mw=mw)
     # a simulation that raises: outside "every call succeeds"; the mock is deterministic (prefix), the pools are not
     for n in (1, 3, 6):
         labels = list(range(n))
